@@ -16,7 +16,7 @@ MODES = ('last-first', 'last-last', 'first-last', 'first-first')
 
 def site_of(core):
     """(tensor name, site) of the row-mode index of a core, or None"""
-    for l in core.legs[1]:
+    for l in tuple(core.legs[1]) + (tuple(core.legs[2]) if core.ndim == 4 else ()):          # (the column index for trains whose modes sit in the columns only)
         l = l.resolve()
         if l.kind == 'M':
             return (l.origin.split('.')[0], l.key)
@@ -59,16 +59,21 @@ def check(repo, tier):
 
     # ------------------------------------------------------------------ D1 tensordot
     entry = f'{TTM}.TT.tensordot'
-    for mode, ds, do in itertools.product(MODES, range(1, top + 1), range(1, top + 1)):
-        for n in range(1, min(ds, do) + 1):
-            for overwrite in ((False, True) if (tier == 'thorough' or (ds, do, n) in ((2, 2, 1), (3, 2, 2))) else (False,)):
-                scen = f'tensordot(mode={mode}, order self={ds}, other={do}, num_axes={n}, overwrite={overwrite})'
+    # operand kinds: genuine operators (row and column indices), and trains whose modes sit in the row indices only ('vec': states) or in the column indices only
+    # ('bra': transposed states, for which isoperator() is False as well) -- the contraction is over (row, column) pairs whatever the kind
+    grid = [(mode, ds, do, n, 'op', 'op') for mode, ds, do in itertools.product(MODES, range(1, top + 1), range(1, top + 1)) for n in range(1, min(ds, do) + 1)]
+    grid += [(mode, ds, do, n, ka, kb) for mode in MODES for ds, do, n in (((2, 2, 1), (2, 2, 2), (3, 2, 1)) if tier == 'thorough' else ((2, 2, 1), (2, 2, 2)))
+             for ka, kb in (('bra', 'bra'), ('vec', 'vec'), ('vec', 'op'), ('op', 'bra'))]
+    for mode, ds, do, n, ka, kb in grid:
+        if True:
+            for overwrite in ((False, True) if (tier == 'thorough' or (ds, do, n) in ((2, 2, 1), (3, 2, 2))) and (ka, kb) == ('op', 'op') else (False,)):
+                scen = f'tensordot(mode={mode}, order self={ds}, other={do}, num_axes={n}, overwrite={overwrite})' + ('' if (ka, kb) == ('op', 'op') else f' [self: {ka}, other: {kb}]')
                 pairs, order = expected_tensordot(mode, ds, do, n)
 
-                def body(sc):
-                    a = sc.tt('a', ds, 'op', square=False)
-                    row = [sc.atom(f'p{k}') for k in range(do)]
-                    col = [sc.atom(f'q{k}') for k in range(do)]
+                def body(sc, ka=ka, kb=kb):
+                    a = sc.tt('a', ds, 'op', square=False, row=[1] * ds if ka == 'bra' else None, col=[1] * ds if ka == 'vec' else None)
+                    row = [1 if kb == 'bra' else sc.atom(f'p{k}') for k in range(do)]
+                    col = [1 if kb == 'vec' else sc.atom(f'q{k}') for k in range(do)]
                     for i, j in pairs:
                         row[j] = a._attrs['row_dims'][i]
                         col[j] = a._attrs['col_dims'][i]
@@ -362,8 +367,12 @@ def check(repo, tier):
                 run.oblige('D4', (entry, scen), not bad)
                 if bad:
                     run.add(F(entry, 'D4', 'diag', f'{scen}: ' + '; '.join(bad[:3])))
-    for pattern in ([1, 0, 1], [0, 1], [1, 0], [0, 0, 1], [1, 0, 0, 1], [0, 1, 0], [0, 1, 1, 0], [1, 1]):
-        scen = f'squeeze(modes {["mode" if p else "1x1" for p in pattern]})'
+    # (the long patterns: the order in which the sites with a mode are processed must not depend on how a container happens to enumerate integers >= 8 --
+    #  the hash order of a set of ints is their order only below the table size)
+    long_patterns = [[1 if k in ks else 0 for k in range(n_)] for n_, ks in ((10, (3, 8)), (11, (2, 9)))] + \
+        ([[1 if k in ks else 0 for k in range(n_)] for n_, ks in ((18, (5, 16)), (12, (1, 4, 10)))] if tier == 'thorough' else [])
+    for pattern in ([1, 0, 1], [0, 1], [1, 0], [0, 0, 1], [1, 0, 0, 1], [0, 1, 0], [0, 1, 1, 0], [1, 1]) + tuple(long_patterns):
+        scen = f'squeeze(modes {["mode" if p else "1x1" for p in pattern]})' if len(pattern) < 9 else f'squeeze(order {len(pattern)}, modes at sites {[k for k, p in enumerate(pattern) if p]})'
         entry = f'{TTM}.TT.squeeze'
         d = len(pattern)
 
